@@ -4,5 +4,5 @@ CONSTANTS FilterChoices <- FiltersQuick  Probe <- ProbeAll  FailBodies <- Bodies
 SPECIFICATION Spec
 VIEW View
 INVARIANTS TypeOK Inv_C10_base Inv_C10_unified Inv_C10_nostale Inv_C10_count OnlyFiltered
-PROPERTIES RejectedKeeps OthersKeep
+PROPERTIES RejectedKeeps OnlyUpdatesChange
 CHECK_DEADLOCK FALSE
